@@ -308,6 +308,7 @@ static void sweep_c01(Obj &o, const Case &c, XorShift &x) {
 static void sweep_c02(Obj &o, const Case &c, XorShift &x) {
   size_t n = c.S.size();
   auto qs = absent_queries(c, x, n <= 8 ? 60 : 200);
+  qs.push_back({std::string(), "empty"});   // the empty string is NUL-terminated and never a member
   if (!skip("locate_absent")) {
     for (auto &q : qs) {
       cur->labels.insert(std::string("absent:") + q.cls);
